@@ -1,6 +1,7 @@
-(* C14: extraction of the lineariser model and of the grammar's canonical stream for the
-   correspondence run. *)
+(* C14: extraction of the lineariser model, of the grammar's canonical stream and of the
+   scanner-cursor model for the correspondence run. *)
 Require Import ExtrOcamlBasic.
-Require Import AV.Linear.Model AV.Linear.Grammar.
+Require Import AV.Linear.Model AV.Linear.Grammar AV.Linear.Scan.
 
-Extraction "Linear/extracted/linear.ml" linearize indentLevel canonPiled canonBraced wf_block.
+Extraction "Linear/extracted/linear.ml" linearize indentLevel canonPiled canonBraced wf_block
+                                        inclLine scan.
